@@ -194,3 +194,52 @@ End FixedMap.
 Arguments mk {V} data count.
 Arguments data {V} f.
 Arguments count {V} f.
+
+(* ---------- whole histories over a generic value type (used by the refinement theorem;
+   Corr.v has its own Z-valued runner that also records implementation panics) ---------- *)
+Section Hist.
+  Context {V : Type}.
+  Variable dv : V.
+  Variable cap : Z.
+
+  Inductive op :=
+  | OpGet (k : Z)
+  | OpSet (k : Z) (v : V)
+  | OpIns (k : Z) (v : V) (new : bool)
+  | OpInsP (k : Z) (v : V)
+  | OpRem (k : Z)
+  | OpIdx (i : Z)
+  | OpClear
+  | OpLen
+  | OpEntries.
+
+  Inductive ret :=
+  | RetOpt (o : option V)
+  | RetRes (r : res (option V))
+  | RetEnt (e : option (Z * V))
+  | RetUnit
+  | RetLen (n : Z) (e : bool)
+  | RetList (l : list (Z * V)).
+
+  Definition istep (m : @fmap V) (o : op) : res (@fmap V * ret) :=
+    match o with
+    | OpGet k => r <-- get dv m k ;; Ok (m, RetOpt r)
+    | OpSet k v => r <-- set_value dv m k v ;; Ok (fst r, RetOpt (snd r))
+    | OpIns k v new => r <-- insert_with_options dv cap m k v new ;; Ok (fst r, RetRes (snd r))
+    | OpInsP k v => r <-- insert dv cap m k v ;; Ok (fst r, RetOpt (snd r))
+    | OpRem k => r <-- remove dv m k ;; Ok (fst r, RetOpt (snd r))
+    | OpIdx i => r <-- get_entry_by_index dv m i ;; Ok (m, RetEnt r)
+    | OpClear => m' <-- clear dv m ;; Ok (m', RetUnit)
+    | OpLen => Ok (m, RetLen (len m) (is_empty m))
+    | OpEntries => Ok (m, RetList (entries m))
+    end.
+
+  Fixpoint irun (ops : list op) (m : @fmap V) : res (list ret * @fmap V) :=
+    match ops with
+    | [] => Ok ([], m)
+    | o :: r =>
+        s <-- istep m o ;;
+        t <-- irun r (fst s) ;;
+        Ok (snd s :: fst t, snd t)
+    end.
+End Hist.
